@@ -326,14 +326,34 @@ pub fn run_transport(args: &[String]) {
     let dir = tmpdir(&format!("transport-{}", kind));
     let fails: Arc<Mutex<Vec<Value>>> = Default::default();
     let mut execs = 0usize;
-    let direct = matches!(kind.as_str(), "unix" | "unix-mode" | "abstract" | "tcp");
-    let address = match kind.as_str() {
+    // "<kind>": raw client (std sockets) against varlink::listen; "<kind>-lib": the library's own client (Connection::with_address)
+    // against varlink::listen, so that both sides parse the address form
+    let lib_client = kind.ends_with("-lib");
+    let base = kind.trim_end_matches("-lib").to_string();
+    let direct = matches!(base.as_str(), "unix" | "unix-mode" | "abstract" | "tcp") && !lib_client;
+    let own_server = direct || lib_client;
+    let port = 24000 + (std::process::id() % 20000);
+    let address = match base.as_str() {
         "unix" => format!("unix:{}/s", dir.display()),
         "unix-mode" => format!("unix:{}/s;mode=0666", dir.display()),
         "abstract" => format!("unix:@verif-transport-{}", std::process::id()),
-        _ => format!("tcp:127.0.0.1:{}", 24000 + (std::process::id() % 20000)),
+        "tcp6" => format!("tcp:[::1]:{}", port),
+        "tcp-localhost" => format!("tcp:localhost:{}", port),
+        _ => format!("tcp:127.0.0.1:{}", port),
     };
-    let mut server = if direct { Some(Server::start(&address, 2, 8)) } else { None };
+    if base == "tcp6" && std::net::TcpListener::bind("[::1]:0").is_err() {
+        // no IPv6 loopback on this machine: nothing to compare
+        emit(&json!({"summary": true, "cases": 0, "executions": 0, "failures": 0, "skipped": "no IPv6 loopback"}));
+        return;
+    }
+    if base == "tcp-localhost" {
+        use std::net::ToSocketAddrs;
+        if ("localhost", 0).to_socket_addrs().map(|mut a| a.next().is_none()).unwrap_or(true) {
+            emit(&json!({"summary": true, "cases": 0, "executions": 0, "failures": 0, "skipped": "localhost does not resolve"}));
+            return;
+        }
+    }
+    let mut server = if own_server { Some(Server::start(&address, 2, 8)) } else { None };
     // watchdog for calls that never return
     let progress = Arc::new(std::sync::atomic::AtomicUsize::new(0));
     {
@@ -378,7 +398,9 @@ pub fn run_transport(args: &[String]) {
                 let up_tok = if end == "upgraded" { Some(creqs[at - 1].tok.clone()) } else { None };
                 run_socket(&address, &server.as_ref().unwrap().log, &[stream.clone()], if end == "upgraded" { None } else { Some(&sentinel) }, &stok, up_tok.as_deref())
             } else {
-                let conn = if kind == "activate" {
+                let conn = if lib_client {
+                    Connection::with_address(&address).map_err(|e| format!("Connection::with_address({}) failed: {:?}", address, e.kind()))?
+                } else if kind == "activate" {
                     let dump = dir.join(format!("dump{}", i));
                     let c = Connection::with_activate(&format!("{} actserve --varlink=$VARLINK_ADDRESS --dump={}", self_exe(), dump.display()))
                         .map_err(|e| format!("with_activate failed: {:?}", e.kind()))?;
